@@ -1,7 +1,7 @@
 use crate::protocol::binary_codec::{
     BinaryRequest, BinaryResponse, MemcacheBinaryCodec, ResponseMessage,
 };
-use bytes::BytesMut;
+use bytes::{Buf, BytesMut};
 use std::cmp;
 use std::io;
 use std::io::{Error, ErrorKind};
@@ -37,13 +37,12 @@ impl MemcacheBinaryConnection {
                             request.header.body_length,
                             self.buffer.len()
                         );
-                        let skip = (request.header.body_length) - (self.buffer.len() as u32);
-                        if skip >= self.buffer.len() as u32 {
-                            self.buffer.clear();
-                        } else {
-                            self.buffer = self.buffer.split_off(skip as usize);
-                        }
-                        self.skip_bytes(skip).await?;
+                        // drop the part of the oversized body that is already buffered,
+                        // then skip the rest of it from the socket
+                        let body_length = request.header.body_length as usize;
+                        let buffered = cmp::min(body_length, self.buffer.len());
+                        self.buffer.advance(buffered);
+                        self.skip_bytes((body_length - buffered) as u32).await?;
                         return Ok(Some(BinaryRequest::ItemTooLarge(request)));
                     }
                     _ => {
